@@ -69,8 +69,9 @@ pub fn run(o: &Opts) {
                 if kind == 1 && !spec.is_enabled_in(SpecId::TANGERINE) { continue; } // before EIP-150 the creator keeps no gas to report with
                 if kind == 2 && !spec.is_enabled_in(SpecId::PETERSBURG) { continue; }
                 for layer in 0..LAYERS.len() {
-                    for tk in 0..7u64 {
-                        // target pre-state: 0 empty/missing, 1 code, 2 nonce, 3 storage only, 4 storage + balance, 5 balance only, 6 storage slot holding zero only
+                    for tk in 0..8u64 {
+                        // target pre-state: 0 empty/missing, 1 code, 2 nonce, 3 storage only, 4 storage + balance, 5 balance only, 6 storage slot holding zero only,
+                        // 7 storage held for an address the database has no account info for (basic() = None, has_storage() = true)
                         let eoa = Address::from_slice(&rng.bytes(20));
                         let factory = Address::from_slice(&rng.bytes(20));
                         let creator_nonce = if kind == 0 { rng.below(300) } else { 1 + rng.below(300) };
@@ -91,11 +92,12 @@ pub fn run(o: &Opts) {
                         let tinfo = match tk {
                             1 => Some(AccountInfo { nonce: 0, balance: tbal, code_hash: tcode.hash_slow(), code: Some(tcode.clone()) }),
                             2 => Some(AccountInfo { nonce: 1 + rng.below(5), balance: tbal, code_hash: KECCAK_EMPTY, code: None }),
+                            7 => None,
                             0 => if tbal.is_zero() && rng.chance(1, 2) { None } else { Some(AccountInfo { nonce: 0, balance: tbal, code_hash: KECCAK_EMPTY, code: None }) },
                             _ => Some(AccountInfo { nonce: 0, balance: tbal, code_hash: KECCAK_EMPTY, code: None }),
                         };
                         let slots: Vec<(U256, U256)> = match tk {
-                            3 | 4 => (0..rng.range(1, 3)).map(|_| (rng.u256b(), rng.u256b().max(U256::from(1)))).collect(),
+                            3 | 4 | 7 => (0..rng.range(1, 3)).map(|_| (rng.u256b(), rng.u256b().max(U256::from(1)))).collect(),
                             6 => vec![(U256::from(1), U256::ZERO)],
                             _ => if tk == 1 && rng.chance(1, 2) { vec![(U256::from(2), U256::from(5))] } else { vec![] },
                         };
@@ -118,7 +120,7 @@ pub fn run(o: &Opts) {
                             // the target (info and storage) is inserted into the CacheDB itself
                             let mut c = CacheDB::new(under);
                             if let Some(i) = &tinfo { c.insert_account_info(target, i.clone()); }
-                            if tinfo.is_some() { for (k, v) in &slots { c.insert_account_storage(target, *k, *v).unwrap(); } }
+                            if tinfo.is_some() || tk == 7 { for (k, v) in &slots { c.insert_account_storage(target, *k, *v).unwrap(); } }
                             c
                         };
                         let inserted_empty = || -> CacheDB<EmptyDB> {
@@ -127,7 +129,11 @@ pub fn run(o: &Opts) {
                             for ((a, k), v) in &m.stor { c.insert_account_storage(*a, *k, *v).unwrap(); }
                             c
                         };
-                        if tinfo.is_none() && !slots.is_empty() { continue; }
+                        if tinfo.is_none() && !slots.is_empty() && tk != 7 { continue; }
+                        // storage without account info is an inconsistent database: the caching layers (State, CacheDB over a
+                        // database) remember "basic() = None" as "does not exist" and answer "no storage" from that entry without
+                        // asking further, so the kind is only put to the layers that pass the question through or hold the slot themselves
+                        if tk == 7 && matches!(layer, 1 | 2 | 6 | 7) { continue; }
                         let gas_limit = 200_000 + rng.below(800_000);
                         let to = if kind == 0 { TxKind::Create } else { TxKind::Call(factory) };
                         let r = catch(|| if hist { match layer {
@@ -178,7 +184,7 @@ pub fn run(o: &Opts) {
                             zacct(post.nonce, post.balance, post.code_hash), zb(t_created), zb(stor_same), zu(caller_nonce_after));
                         let case = format!("(mkCase {} {} {} {} {})", kind, zb(spec.is_enabled_in(SpecId::TANGERINE)), env, zb(has_storage), obs);
                         let kn = ["create-tx", "CREATE", "CREATE2"][kind as usize];
-                        let tn = ["empty", "code", "nonce", "storage", "storage+balance", "balance", "zero-slot"][tk as usize];
+                        let tn = ["empty", "code", "nonce", "storage", "storage+balance", "balance", "zero-slot", "storage-without-account-info"][tk as usize];
                         let human = format!("{:?} {} layer={} target={} round={} after_touch={} collided={} gas=({},{})", spec, kn, LAYERS[layer], tn, round, hist, collided, ga, gb);
                         let t1 = format!("kind:{}", kn); let t2 = format!("layer:{}", LAYERS[layer]); let t3 = format!("target:{}", tn);
                         let t4 = if collided { "outcome:collision" } else { "outcome:created" };
@@ -189,5 +195,5 @@ pub fn run(o: &Opts) {
             }
         }
     }
-    w.finish("matrix {13 SpecIds} x {create transaction, CREATE and CREATE2 from a factory contract} x {8 database layers holding the target: custom DB with has_storage, State<DB>, CacheDB<DB>, inserted into CacheDB<EmptyDB>, WrapDatabaseRef<DB>, WrapDatabaseRef<CacheDB<DB>>, State over CacheDB with inserts, CacheDB over CacheDB with inserts} x {target empty/missing, code, nonce, storage only (EIP-7610), storage+balance, balance only, a slot holding zero} x {fresh database, or (odd rounds, committing layers) after a committed 1-wei transfer to the target}, random addresses/nonces/salts/gas limits, executed by Evm::transact; observed: collision or created address, gas before/after the create in the creator (transaction: gas_used vs gas_limit), target account and storage afterwards, creator nonce");
+    w.finish("matrix {13 SpecIds} x {create transaction, CREATE and CREATE2 from a factory contract} x {8 database layers holding the target: custom DB with has_storage, State<DB>, CacheDB<DB>, inserted into CacheDB<EmptyDB>, WrapDatabaseRef<DB>, WrapDatabaseRef<CacheDB<DB>>, State over CacheDB with inserts, CacheDB over CacheDB with inserts} x {target empty/missing, code, nonce, storage only (EIP-7610), storage+balance, balance only, a slot holding zero, storage held without account info (only on the layers that pass has_storage through or hold the slot themselves)} x {fresh database, or (odd rounds, committing layers) after a committed 1-wei transfer to the target}, random addresses/nonces/salts/gas limits, executed by Evm::transact; observed: collision or created address, gas before/after the create in the creator (transaction: gas_used vs gas_limit), target account and storage afterwards, creator nonce");
 }
